@@ -1,10 +1,4 @@
 #!/bin/sh
-# run_findings.sh <repo> <workdir> -- INFORMATIONAL: check the witnesses of ArenaFindings.v (obligations of the generated
-# programs that do not hold on the naive domain) against the current source.  Not part of the pass/fail chain.
-set -u
-HERE=$(cd "$(dirname "$0")" && pwd)
-REPO=${1:?usage: run_findings.sh <repo> <workdir>}
-WORK=${2:?usage: run_findings.sh <repo> <workdir>}
-"$HERE/run_arena.sh" "$REPO" "$WORK" > "$WORK.arena.log" 2>&1 || { echo "run_findings: run_arena.sh fails, see $WORK.arena.log"; exit 1; }
-cp "$HERE/ArenaFindings.v" "$WORK/" || exit 2
-python3 "$HERE/check_thms.py" "$WORK" ArenaFindings.v
+# run_findings.sh <repo> <workdir> -- INFORMATIONAL: `prop.sh findings`: ArenaFindings.v (the repaired counterparts of the
+# Layout finding) against the current source
+exec "$(dirname "$0")/prop.sh" findings "$@"
